@@ -8,7 +8,7 @@ use blsful::inner_types::Group;
 use blsful::*;
 use serde_json::json;
 
-pub const RULE: &str = "message lengths {0..=40, 100..=140, 16383, 16384, 16385, 65535, 65536} (quick: every 3rd of the short ranges + all boundary lengths) x 3 schemes x 2 groups x fresh keys x contents. Honest: is_valid()==1, decrypt(sk)==msg, SignCryptDecryptionKey(u*sk).decrypt==msg, sk.sign_decryption_key path, decode(encode(ct)) decrypts, and the REFERENCE opens the library's ciphertext to msg. Tamper: EXHAUSTIVE single-bit flips of the whole byte encoding (u, length prefix, v, w, scheme byte) for one ciphertext of a message <= 8 bytes per (scheme,group) cell, 64 sampled flips for every other ciphertext; component-level changes: u+G, 2u, u of another ciphertext, w+G, -w, w of another ciphertext, v truncated by 1 / to empty / extended by 1 and 32 bytes / one byte changed, each other scheme label; 8 independent wrong keys. A flip whose encoding no longer decodes is counted as rejected-at-decode (trivial); one that decodes to the SAME value (non-canonical scheme byte) is not an alteration; every other one is non-trivial and must give is_valid()==0 and decrypt()==None on all three decrypt paths. Wrong keys must never return the original message. Distinct by (suite,scheme,variant,ciphertext bytes).";
+pub const RULE: &str = "message lengths {0..=40, 100..=140, 16383, 16384, 16385, 65535, 65536} (quick: every 3rd of the short ranges + all boundary lengths) x 3 schemes x 2 groups x fresh keys x contents. Honest: is_valid()==1, decrypt(sk)==msg, SignCryptDecryptionKey(u*sk).decrypt==msg, sk.sign_decryption_key path, decode(encode(ct)) decrypts, and the REFERENCE opens the library's ciphertext to msg. Tamper: EXHAUSTIVE single-bit flips of the whole byte encoding (u, length prefix, v, w, scheme byte) for one ciphertext of a message <= 8 bytes per (scheme,group) cell, 64 sampled flips for every other ciphertext; component-level changes: u+G, 2u, u of another ciphertext, w+G, -w, w of another ciphertext, v truncated by 1 / to empty / extended by 1 and 32 bytes / one byte changed, each other scheme label; 8 independent wrong keys. A flip whose encoding no longer decodes is counted as rejected-at-decode (trivial); one that decodes to the SAME value (non-canonical scheme byte) is not an alteration; every other one is non-trivial and must give is_valid()==0 and decrypt()==None on all three decrypt paths. Wrong keys must never return the original message. History clusters (1 quick / 6 thorough per group): the ciphertext of every scheme and seven altered copies (three labels, u+G, w+G, a payload bit, payload truncated) through is_valid / decrypt / decryption key / decrypt under a wrong key are asked in ordered pairs (a,b) as a,b,b,a; every answer must equal the answer the question has on its own. Distinct by (suite,scheme,variant,ciphertext bytes).";
 
 pub fn run(ctx: &mut Ctx) {
     for_both!(run_suite, ctx);
@@ -54,6 +54,13 @@ fn run_suite<C: Suite>(ctx: &mut Ctx) {
                 let exhaustive = len == 5 || (len == 6 && ctx.tier == Tier::Quick) || (ctx.tier == Tier::Thorough && (len == 0 || len == 8));
                 one::<C>(ctx, g, scheme, len, content, exhaustive && matches!(content, Content::Random));
             }
+        }
+    }
+    ctx.require(&format!("{n}/history"));
+    for i in 0..ctx.tier.pick(1, 6) {
+        g += 1;
+        if ctx.mine(g) {
+            history_cluster::<C>(ctx, g, i);
         }
     }
     let s = "single-bit flips of the full byte encoding of the designated short-message ciphertext(s) per (scheme, group)".to_string();
@@ -239,4 +246,61 @@ fn one<C: Suite>(ctx: &mut Ctx, g: u64, scheme: Scheme, len: usize, content: Con
 
 fn content_is_random(c: Content) -> bool {
     matches!(c, Content::Random)
+}
+
+/// One key, one wrong key, one message: the ciphertext of every scheme and its altered copies
+/// (each scheme label, u+G, one payload byte changed, payload truncated, w+G) through is_valid,
+/// decrypt, the decryption-key path and decrypt under the wrong key, asked in ordered pairs as
+/// a, b, b, a (all pairs among the copies of one ciphertext, sampled pairs across ciphertexts).
+fn history_cluster<C: Suite>(ctx: &mut Ctx, g: u64, i: usize) {
+    use super::history::{family_pairs, q, sandwich_pairs, Q};
+    let mut rng = ctx.rng(g);
+    let n = C::NAME;
+    let k = gen::random_scalar(&mut rng);
+    let sk = sk_from_rs::<C>(&k);
+    let wrong = sk_from_rs::<C>(&gen::random_scalar(&mut rng));
+    let pk = sk.public_key();
+    let msg = gen::message([24usize, 3, 33, 130, 8][i % 5], Content::Random, &mut rng); // >= 3 bytes: below that a wrong key can return the original by chance (known finding D11)
+    type A = Option<Vec<u8>>;
+    let verdict = |b: bool| -> A { Some(vec![b as u8]) };
+    let mut qs: Vec<Q<A>> = Vec::new();
+    let (skr, wr) = (&sk, &wrong);
+    for s1 in SCHEMES {
+        let ct = pk.sign_crypt(lscheme(s1), &msg);
+        let mut copies: Vec<(String, bool, SignCryptCiphertext<C>)> = Vec::new();
+        for s2 in SCHEMES {
+            let mut c = ct.clone();
+            c.scheme = lscheme(s2);
+            copies.push((format!("label-{}", s2.name()), s1 == s2, c));
+        }
+        let mut c = ct.clone();
+        c.u += <PkPt<C> as Group>::generator();
+        copies.push(("u+G".into(), false, c));
+        let mut c = ct.clone();
+        c.w += <SigPt<C> as Group>::generator();
+        copies.push(("w+G".into(), false, c));
+        let mut c = ct.clone();
+        let last = c.v.len() - 1;
+        c.v[last] ^= 1;
+        copies.push(("v-last-bit".into(), false, c));
+        let mut c = ct.clone();
+        c.v.pop();
+        copies.push(("v-truncated".into(), false, c));
+        for (vn, honest, c) in copies {
+            let fam = format!("sealed-{}", s1.name());
+            let (c1, c2, c3, c4) = (c.clone(), c.clone(), c.clone(), c);
+            let plain: A = if honest { Some(msg.clone()) } else { None };
+            qs.push(q(format!("{fam}/{vn}/is_valid"), verdict(honest), move || verdict(bool::from(c1.is_valid()))));
+            qs.push(q(format!("{fam}/{vn}/decrypt"), plain.clone(), move || ct_some(c2.decrypt(skr))));
+            qs.push(q(format!("{fam}/{vn}/decryption-key"), plain.clone(), move || ct_some(skr.sign_decryption_key::<&[u8]>(&c3).decrypt(&c3))));
+            // under the wrong key the original message never comes back
+            let m4 = msg.clone();
+            qs.push(q(format!("{fam}/{vn}/wrong-key-returns-original"), verdict(false), move || verdict(ct_some(c4.decrypt(wr)).as_deref() == Some(&m4[..]))));
+        }
+    }
+    let pairs = family_pairs(&qs, ctx.tier.pick(200, 800), &mut rng);
+    let d = || json!({"suite":n,"sk":hex::encode(k.to_be_bytes()),"msg":hx(&msg),"note":"verdicts answer [1]/[0]; decrypt questions answer the plaintext or null"});
+    let mut cid = k.to_be_bytes().to_vec();
+    cid.extend_from_slice(&msg);
+    sandwich_pairs(ctx, "C11", &format!("{n}/history"), "ciphertext-copies", &cid, &d, &qs, &pairs);
 }
